@@ -447,3 +447,54 @@ addendum('C16', 'FP field widths by origin resolution through helpers and '
 addendum('C18', 'R4 is armed (the fresh-variable flow is a listed known '
          'finding with a witness); the information tables are never rebuilt '
          'inside a loop over pool results (R5).')
+
+
+# ---- round 4 (DESIGN.md 8.4, "Round 4")
+addendum('C01', 'R8 = C09.R7 + C09.R8: compared streams are the binary pipes '
+         'decoded once; the private copies of the two commands and the '
+         'candidate file have provably distinct names.')
+addendum('C02', 'R7 = C14.R6 (toggles written only by option actions and '
+         'detection), R8 = C12.R5 (the candidate-enumerating walks visit '
+         'every node); R6 also covers ddmin (C16.R9).')
+addendum('C03', 'the task index advances on exception paths too; R9 = '
+         'C16.R8 (sort inference memoised for every result).')
+addendum('C04', 'the containment handler does not render the guarded '
+         's-expression; no division by an untested value in main-process '
+         'code (R8); element access during option processing is guarded '
+         '(R9); profiler activations do not nest (R10, call-graph '
+         'reachability).')
+addendum('C05', 'hybrid hand-over by reaching definitions (R8); no '
+         'return/break/continue in a finally block, writer handlers '
+         're-raise (R9).')
+addendum('C06', 'SIGINT disposition is never SIG_DFL and ignored only '
+         'between save and restore (R6, zero-count rule with fixture).')
+addendum('C07', 'R8 = C12.R1 (pickle framing carries leaf text verbatim); '
+         'map/join over rendered text counts as post-processing.')
+addendum('C08', 'one lexer (R7): reads of the input file flow only into '
+         'parse_smtlib; max() over two terminator searches is reported.')
+addendum('C09', 'distinct names of private copies as template comparison '
+         '(R8); R9 = C10.R5 (strategies dominated by the golden runs).')
+addendum('C10', 'the bytes-per-unit factor of --memout is the product of '
+         'all constant factors between the option and the limit (= 2^20); '
+         'no __exit__ returns a true constant (R6).')
+addendum('C11', 'R8 = C12.R3, R9 = C13.R1, R10 = C05.R4 (hash of a node is '
+         'the hash of its data; inputs of generators are re-duplicated; the '
+         'worker applies a simplification to the task\'s own base).')
+addendum('C12', 'R6 = C13.R2-R4; sequence protocol of Node (R7): indexing '
+         'is data[key], iteration is iter(data) or left to __getitem__; '
+         'equality walk accepted with one stack of zipped pairs; reader '
+         'cursor as linear forms along paths.')
+addendum('C13', 'R6 = C12.R7 (zip(node, rebuilt children) pairs each child '
+         'with its copy).')
+addendum('C14', 'R9: detection is not reachable from a strategy call; a '
+         'pass-dependent return is dominated by the loop over the passes; '
+         'pass lists are bound once and never modified.')
+addendum('C15', 'R8: is_piped_symbol / is_string_const are first/last '
+         'character tests or an equivalent regular expression (syntax tree '
+         'inspected: anchoring, DOTALL, excluded characters, "" pairs).')
+addendum('C16', 'R8 memo transparency of get_sort; R9 tables rebuilt after '
+         'every ddmin adoption before the next task is generated.')
+addendum('C18', 'set-returning functions make their callers\' iterations '
+         'order-sensitive consumptions (R1, interprocedural); R6 = default '
+         'time limits of C10.R4; module/class-level pid values may only be '
+         'compared for equality.')
